@@ -83,6 +83,7 @@ class FsSeam:
         self.kind_counts: dict[str, int] = {}
         self.fired: list[dict] = []
         self.enabled = True
+        self.track_reads = False
         self._mk = 0
 
     # ------------------------------------------------------------------ utils
@@ -245,6 +246,40 @@ class SimFile:
                 self._real.close()
 
 
+class ReadFile:
+    """Thin wrapper around a real binary file opened for reading: records byte reads by inode."""
+
+    def __init__(self, seam: FsSeam, real, path, ino) -> None:
+        self._seam = seam
+        self._real = real
+        self._path = path
+        self._ino = ino
+
+    def read(self, *a):
+        data = self._real.read(*a)
+        if data:
+            self._seam.read_event("read", self._path, self._ino)
+        return data
+
+    def readinto(self, b):
+        n = self._real.readinto(b)
+        if n:
+            self._seam.read_event("read", self._path, self._ino)
+        return n
+
+    def __getattr__(self, name):
+        return getattr(self._real, name)
+
+    def __enter__(self):
+        return self
+
+    def __exit__(self, *exc):
+        self._real.close()
+
+    def __iter__(self):
+        return iter(self._real)
+
+
 def make_open(seam: FsSeam):
     real_open = builtins.open
 
@@ -261,11 +296,15 @@ def make_open(seam: FsSeam):
                 return real
             return SimFile(seam, real, file)
         real = real_open(file, mode, *args, **kwargs)
+        ino = None
         try:
             st = _real_os.fstat(real.fileno())
-            seam.read_event("open_r", file, (st.st_dev, st.st_ino))
+            ino = (st.st_dev, st.st_ino)
         except Exception:  # noqa: BLE001
-            seam.read_event("open_r", file, None)
+            pass
+        seam.read_event("open_r", file, ino)
+        if seam.track_reads and "b" in mode:
+            return ReadFile(seam, real, file, ino)
         return real
 
     return sim_open
@@ -340,6 +379,11 @@ class OsProxy:
         return _real_os.lstat(p, **kw)
 
     def _copy_file_range(self, src, dst, count, offset_src=None, offset_dst=None):
+        try:
+            st = _real_os.fstat(src)
+            self._seam.read_event("copy_file_range_src", f"fd:{src}", (st.st_dev, st.st_ino))
+        except Exception:  # noqa: BLE001
+            self._seam.read_event("copy_file_range_src", f"fd:{src}", None)
         f = self._seam.effect("copy_file_range", None, count)
         if f is not None:
             if f["mode"] == "short" and count > 1:
